@@ -535,6 +535,10 @@ func (q *checker) bcheckAssignment(lhs *a.Expr, op t.ID, rhs *a.Expr) error {
 		if !rhs.Effect().Pure() {
 			// No-op.
 
+		} else if rhs.Mentions(lhs) {
+			// No-op. For example, after "x = x + 1", the "x == (x + 1)" fact
+			// would be about two different values of x.
+
 		} else if lhs.MType().IsNumType() {
 			q.facts.appendBinaryOpFact(t.IDXBinaryEqEq, lhs, rhs)
 
